@@ -33,7 +33,7 @@ def main():
         r1 = sh(['/venv/bin/python', demo], env=env, timeout=600)
         out['demo_mutant_exit'] = r1.returncode
         out['demo_mutant_output'] = (r1.stdout + r1.stderr)[-600:]
-        s = sh(['/tmp/seedtools/suite.sh', tmp], timeout=1800)
+        s = sh(['/verif/tools/suite.sh', tmp], timeout=1800)
         out['suite'] = s.stdout.strip().splitlines()[0] if s.stdout.strip() else s.stderr[-200:]
         out['suite_ok'] = s.returncode == 0
         res = {}
